@@ -49,23 +49,79 @@ def cases(tier, seed, focus):
                                                    "n_inter": [0, 4], "depth": 2, "annotations": False}, "npts": 4, "tags": ["C16"]}
 
 
-def find_singular(ref):
-    """(state, a, assignment) recovered from the text: denominators vanishing at a state value; a is a float (literal) or the
-    NAME of a parameter (the singular point is wherever the state equals that parameter's value)"""
+def singular_forms(ref):
+    """{(state, a, assignment): [family of each singular denominator with that point]} recovered from the text: denominators vanishing at a
+    state value; a is a float (literal) or the NAME of a parameter (the singular point is wherever the state equals that parameter's value);
+    family "float" = the denominator applies a float coefficient to (state - a): 1 - exp(-0.1*(x - a)), for which sympy.solveset returns the
+    root as a Float (`2.0`, `1.0*kf`); "plain" = x - a, exp(x - a) - 1, x"""
     import re
 
     A = r"(-?[\d.]+|[A-Za-z_]\w*)"
-    out = []
+    out = {}
     for name, a in ref.assigns.items():
         txt = a.expr_text.replace(" ", "")
         for s in ref.states:
             for m in re.finditer(r"/\(exp\(" + re.escape(s) + r"(?:-" + A + r")?\)-1\)|/\(" + re.escape(s) + r"-" + A + r"\)|/" + re.escape(s) + r"(?![\w(])|/\(1-exp\(-0\.1\*\(" + re.escape(s) + r"-" + A + r"\)\)\)", txt):
                 val = next((g for g in m.groups() if g is not None), "0")
+                fam = "float" if m.group(0).startswith("/(1-exp(-0.1*") else "plain"
                 if val in ref.params:
-                    out.append((s, val, name))
+                    out.setdefault((s, val, name), []).append(fam)
                 elif not (val[0].isalpha() or val[0] == "_"):  # `1/(x - y)` with y a state / intermediate: a moving point, not a case of this oracle
-                    out.append((s, float(val), name))
-    return sorted(set(out), key=lambda x: (x[0], isinstance(x[1], str), x[1], x[2]))
+                    out.setdefault((s, float(val), name), []).append(fam)
+    return out
+
+
+def find_singular(ref):
+    """the distinct (state, a, assignment) of singular_forms"""
+    return sorted(singular_forms(ref), key=lambda x: (x[0], isinstance(x[1], str), x[1], x[2]))
+
+
+def finite_set_doubtful(ref, name, s, planted):
+    """is the expression of `name` one for which sympy.singularities(expr, s) is not expected to return a FiniteSet (gotranx then skips the
+    expression as a whole)?  A ContinuousConditional that mentions s (its sigmoid has complex poles in s: Intersection({...}, Reals)), or a
+    denominator that mentions s besides the `planted` singular ones (roots with symbolic coefficients: Union / Intersection)"""
+    ast = ref.assigns[name].ast
+
+    def has_s(n):
+        return mg._contains(n, lambda m: m[0] == "var" and m[1] == s)
+
+    cc = mg._contains(ast, lambda n: n[0] == "call" and n[1] == "ContinuousConditional" and any(has_s(x) for x in n[2]))
+    dens = []
+
+    def walk(n):
+        if n[0] == "bin" and n[1] == "/" and has_s(n[3]):
+            dens.append(n)
+        if n[0] == "bin" and n[1] == "**" and has_s(n[2]) and n[3][0] == "un" and n[3][1] == "-":
+            dens.append(n)
+        for ch in mg._children(n):
+            walk(ch)
+
+    walk(ast)
+    return "ContinuousConditional" if cc else "another-denominator" if len(dens) > planted else ""
+
+
+def power_underflows(ref, name, t, states, params):
+    """does a power or exp() inside the expression of `name` underflow to exactly 0 (or leave 1e-300 .. 1e300) at this input?  sympy writes
+    the replacement in its normal form (2**-x**2 becomes 1/2**(x**2)): the reciprocal overflows and the finite limit comes out as inf/inf"""
+    try:
+        vals, _ = ref.evaluate(t, states, params)
+    except mg.RefError:
+        return False
+    base = dict(params)
+    base.update(states)
+    ctx = mg.Ctx(lambda n: t if n in ("t", "time") else base[n] if n in base else vals[n])
+
+    def walk(n):
+        if (n[0] == "bin" and n[1] == "**") or (n[0] == "call" and n[1] == "exp"):
+            try:
+                v = abs(mg._val(mg._num(mg.ev(n, ctx))))
+                if v > 1e300 or v < 1e-300:
+                    return True
+            except Exception:  # noqa: BLE001
+                return True
+        return any(walk(ch) for ch in mg._children(n))
+
+    return walk(ref.assigns[name].ast)
 
 
 def point_value(a, pt):
@@ -150,6 +206,12 @@ def check(case):
     per_assign = {}
     for s, a, name in removable:
         per_assign.setdefault(name, set()).add((s, a))
+    forms = singular_forms(ref)
+
+    def regular_multiple(name):
+        """m when `name` is multiplied by the integer m (1..6) at a regular input, else None"""
+        return next((m_ for m_ in range(1, 7) if multiplied_everywhere(name, m_)), None)
+
     def multiplied_everywhere(name, mlt):
         """is `name` multiplied by mlt at a regular input as well?  (the listed sum-of-Conditionals defect: one Conditional per entry of
         sympy.singularities, which spells one point twice - `kf` and `1.0*kf` - when a factor has a float coefficient)"""
@@ -265,6 +327,26 @@ def check(case):
                     at += f" (and just so with the literal {av!r} written in place of {a})"
                 else:
                     at += f" (repaired when the literal {av!r} is written in place of {a})"
+            if nonfin and sub != PARAM_SUB:
+                # which listed mechanism explains a point that is left in place?  Decided from the model text and the regular-input behaviour
+                # only; none of them -> no suffix (a plain sin / expm1 / (x-a)/(x-a) factor that is not repaired is not a listed finding)
+                planted = sum(len(v) for (s_, _, n_), v in forms.items() if s_ == s and n_ == name)
+                mreg = regular_multiple(name)
+                st_near = dict(pt["states"])
+                st_near[s] = av + 1e-6
+                if mreg is not None and mreg >= 2:
+                    why = ("sum-of-conditionals", f"{name} is multiplied by {mreg} at regular inputs: {mreg} Conditionals are summed and at a singular point the others contribute the raw expression")
+                elif set(forms.get((s, a, name), ["plain"])) == {"float"}:
+                    why = ("float-coefficient-form", "the only denominator with this root applies a float coefficient to the state (1 - exp(-0.1*(x - a))): sympy returns the root as a Float and its limit as oo")
+                elif finite_set_doubtful(ref, name, s, planted):
+                    why = ("not-a-finite-set", f"the expression has {finite_set_doubtful(ref, name, s, planted)} in {s}: sympy.singularities is not expected to return a FiniteSet and gotranx skips the expression")
+                elif power_underflows(ref, name, pt["t"], st_near, pt["params"]):
+                    why = ("power-underflows-at-the-input", "a power / exp of the expression underflows here: the replacement is written with its reciprocal, which overflows")
+                else:
+                    why = None
+                if why:
+                    sub += ":" + why[0]
+                    at += f" [{why[1]}]"
             if nonfin:
                 add(f"singular-point-not-removed:{sub}", f"{sorted(nonfin)[:3]} still non-finite at {at} after remove_singularities", [pt], {k: lim[k] for k in nonfin}, nonfin, f"{name} = {ref.assigns[name].expr_text[:160]}")
                 break
